@@ -103,7 +103,7 @@ func mirror(r rel) rel {
 // Descending flag fixes the direction; the int result of core.compare — or of a
 // module helper that is summarised path by path (cmpHelperSummary) — tested
 // against 0 refines through the helper's own paths.
-func evalCmpAtoms(c *Ctx, p pathAtoms, side func(ssa.Value) byte, depth int) []cmpOutcome {
+func evalCmpAtoms(c *Ctx, p pathAtoms, side func(pathAtoms, ssa.Value) byte, depth int) []cmpOutcome {
 	outs := []cmpOutcome{{relAll, -1}}
 	helperAllowed := map[*ssa.Call]rel{}
 	var helperCalls []*ssa.Call
@@ -127,7 +127,7 @@ func evalCmpAtoms(c *Ctx, p pathAtoms, side func(ssa.Value) byte, depth int) []c
 			if k, isK := constInt(y); isK && k == 0 {
 				if isCall(call, "z/core.compare") {
 					cx, cy := p.resolve(strip(call.Call.Args[0])), p.resolve(strip(call.Call.Args[1]))
-					sx, sy := side(cx), side(cy)
+					sx, sy := side(p, cx), side(p, cy)
 					if sx != 0 && sy != 0 && sx != sy {
 						for i := range outs {
 							outs[i].r &= refine(b.Op, sx == 'A', a.pos)
@@ -146,7 +146,7 @@ func evalCmpAtoms(c *Ctx, p pathAtoms, side func(ssa.Value) byte, depth int) []c
 				}
 			}
 		}
-		sx, sy := side(x), side(y)
+		sx, sy := side(p, x), side(p, y)
 		if sx != 0 && sy != 0 && sx != sy {
 			for i := range outs {
 				outs[i].r &= refine(b.Op, sx == 'A', a.pos)
@@ -157,7 +157,7 @@ func evalCmpAtoms(c *Ctx, p pathAtoms, side func(ssa.Value) byte, depth int) []c
 		allowed := helperAllowed[call]
 		var argSide []byte
 		for _, av := range call.Call.Args {
-			argSide = append(argSide, side(p.resolve(strip(av))))
+			argSide = append(argSide, side(p, p.resolve(strip(av))))
 		}
 		var next []cmpOutcome
 		for _, t := range cmpHelperSummary(c, call.Call.StaticCallee(), argSide, depth+1) {
@@ -181,14 +181,14 @@ func evalCmpAtoms(c *Ctx, p pathAtoms, side func(ssa.Value) byte, depth int) []c
 // whose arguments are on the given sides.
 func cmpHelperSummary(c *Ctx, h *ssa.Function, argSide []byte, depth int) []cmpTriple {
 	c.touch(h)
-	side := func(v ssa.Value) byte {
+	side := func(pa pathAtoms, v ssa.Value) byte {
 		var sa, sb bool
 		for i, p := range h.Params {
 			if i >= len(argSide) || argSide[i] == 0 {
 				continue
 			}
 			p := p
-			if dependsOn(v, func(x ssa.Value) bool { return x == ssa.Value(p) }) {
+			if dependsOnPath(pa, v, func(x ssa.Value) bool { return x == ssa.Value(p) }) {
 				if argSide[i] == 'A' {
 					sa = true
 				} else {
@@ -231,7 +231,7 @@ func cmpHelperSummary(c *Ctx, h *ssa.Function, argSide []byte, depth int) []cmpT
 					continue
 				}
 				if call, isC := rv.(*ssa.Call); isC && isCall(call, "z/core.compare") {
-					sx, sy := side(p.resolve(strip(call.Call.Args[0]))), side(p.resolve(strip(call.Call.Args[1])))
+					sx, sy := side(p, p.resolve(strip(call.Call.Args[0]))), side(p, p.resolve(strip(call.Call.Args[1])))
 					if sx != 0 && sy != 0 && sx != sy {
 						for _, sg := range []rel{relLT, relEQ, relGT} {
 							rr := sg
@@ -267,9 +267,9 @@ func ruleC09a(c *Ctx, rule string) {
 		return
 	}
 	pi, pj := fn.Params[1], fn.Params[2]
-	side := func(v ssa.Value) byte {
-		di := dependsOn(v, func(x ssa.Value) bool { return x == ssa.Value(pi) })
-		dj := dependsOn(v, func(x ssa.Value) bool { return x == ssa.Value(pj) })
+	side := func(p pathAtoms, v ssa.Value) byte {
+		di := dependsOnPath(p, v, func(x ssa.Value) bool { return x == ssa.Value(pi) })
+		dj := dependsOnPath(p, v, func(x ssa.Value) bool { return x == ssa.Value(pj) })
 		switch {
 		case di && !dj:
 			return 'A'
@@ -704,7 +704,10 @@ func init() {
 		Explanation: "Decides comparator totality per key (path enumeration over Less with the ordering domain), comparator sibling agreement (every arm of compare asserts both operands to the same type and decides both directions), operator nesting and argument wiring of Sort/Offset/Limit in every planner path, and the counter predicates of limit/offset (affine normal form).",
 		NotDecided:  []string{"sort.Sort itself (trusted)", "value comparison of mixed-type dimensions", "precision of numeric comparison (values)"},
 		Assumptions: []string{"compare(x,y) < 0 iff x sorts before y (its shape is checked by C09.b, its arithmetic is not)"},
-		Rules:       []func(*Ctx){func(c *Ctx) { ruleC09a(c, "C09.a") }, func(c *Ctx) { ruleC09b(c, "C09.b") }, func(c *Ctx) { ruleC09c(c, "C09.c") }, func(c *Ctx) { ruleC09d(c, "C09.d") }, func(c *Ctx) { ruleC09e(c, "C09.e") }},
+		Rules: []func(*Ctx){func(c *Ctx) { ruleC09a(c, "C09.a") }, func(c *Ctx) { ruleC09b(c, "C09.b") }, func(c *Ctx) { ruleC09c(c, "C09.c") }, func(c *Ctx) { ruleC09d(c, "C09.d") }, func(c *Ctx) { ruleC09e(c, "C09.e") }, func(c *Ctx) {
+			c.describe("C09.f", "= C11.b: a sub-query ORDER BY / LIMIT / OFFSET at any nesting level forbids the whole-query pushdown (each partition would slice its own order)")
+			ruleC11b(c, "C09.f")
+		}, func(c *Ctx) { ruleC09g(c, "C09.g") }},
 	})
 }
 
@@ -781,4 +784,47 @@ func ruleC09e(c *Ctx, rule string) {
 		}
 	}
 	c.check(rule, "pushdown never hands an OFFSET to the partitions", pa.Pos(), guarded, "a top-level OFFSET forbids the whole-query pushdown", "a query with LIMIT offset, n can be pushed down whole: every partition drops its own first 'offset' rows and the leader drops 'offset' rows again, so the rows returned are not rows offset+1..offset+n of the global order (wrong even with a single partition)")
+}
+
+// ruleC09g: FlatRow.Get (what ORDER BY <field> compares) resolves a field through
+// the row's unexported field list, which only package core can set on
+// construction (cluster rows get it through SetFields).
+func ruleC09g(c *Ctx, rule string) {
+	c.describe(rule, "reg (who-may-construct): core.FlatRow values are built only in package core (Flatten), which binds the field list; a row built elsewhere has no field list, so FlatRow.Get returns nil for every field and ORDER BY <field> degenerates to 'all equal'. Rows decoded from the wire are bound by SetFields in queryCluster")
+	n := 0
+	for _, fn := range c.P.ModFns {
+		pk := pkgOf(fn)
+		if strings.HasPrefix(pk, "z/cmd") || strings.HasPrefix(pk, "z/testsupport") {
+			continue
+		}
+		for _, in := range instrs(fn) {
+			al, ok := in.(*ssa.Alloc)
+			if !ok {
+				continue
+			}
+			if typeStr(al.Type()) != "*z/core.FlatRow" {
+				continue
+			}
+			n++
+			c.touch(fn)
+			bound := false
+			for _, call := range callsTo(fn, "(*z/core.FlatRow).SetFields") {
+				if root(call.Common().Args[0]) == ssa.Value(al) {
+					bound = true
+				}
+			}
+			c.check(rule, "FlatRow built in "+stableName(fn), al.Pos(), pk == "z/core" || bound, "package core binds the field list (or SetFields is called on the new row)", "a core.FlatRow is constructed outside package core: its field list cannot be set there, so every field lookup on it (ORDER BY <field>, HAVING over sorted rows) yields nil and the requested order is silently ignored")
+		}
+	}
+	c.floor(rule, "FlatRow construction sites", n, 1)
+	// the wire path binds fields
+	if qc := c.need(rule, "(*z.DB).queryCluster"); qc != nil {
+		has := false
+		for _, f := range withHelpers(c.P, qc) {
+			if len(callsTo(f, "(*z/core.FlatRow).SetFields")) > 0 {
+				has = true
+			}
+		}
+		c.check(rule, "queryCluster binds the field list of rows received from partitions", qc.Pos(), has, "flatRow.SetFields(fieldsByPartition[…])", "rows decoded from a partition are handed on without SetFields: ORDER BY <field> on the leader compares nil values")
+	}
 }
